@@ -137,7 +137,41 @@ class L2Runner:
         path = os.path.join(self.fs, "input.in")
         source = {0: "-", 1: path, 2: os.path.join(self.fs, "does-not-exist.in"), 3: self.fs, 4: "", 6: os.path.join(self.fs, meta.get("longname", "x")), 7: meta.get("tilde", "~")}.get(src)
         have_file = src == 1 or meta.get("materialise") == "1"
-        if have_file:
+        fifo = meta.get("fifo") == "1" and src == 1
+        feeder = None
+        if fifo:
+            # the named input is a FIFO; a feeder thread writes the document in 2..4 pieces with pauses long enough for the
+            # reader to drain the pipe: a reader that takes "nothing available right now" for end-of-file sees a prefix
+            try:
+                os.unlink(path)
+            except OSError:
+                pass
+            os.mkfifo(path)
+            doc = open(os.path.join(md, "doc.bin"), "rb").read()
+            import random as _r
+            import threading as _t
+            rng = _r.Random(int((meta.get("chunk", "1 0").split() + ["1"])[0] or 1) + len(doc))
+            npieces = rng.randint(2, 4)
+            cuts = sorted(rng.randint(0, len(doc)) for _ in range(npieces - 1))
+            pieces = [doc[a:b] for a, b in zip([0] + cuts, cuts + [len(doc)])]
+
+            def feed():
+                try:
+                    fd = os.open(path, os.O_WRONLY)
+                except OSError:
+                    return
+                try:
+                    for i, pc in enumerate(pieces):
+                        if i:
+                            time.sleep(0.08)
+                        try:
+                            os.write(fd, pc)
+                        except OSError:
+                            break
+                finally:
+                    os.close(fd)
+            feeder = _t.Thread(target=feed, daemon=True)
+        elif have_file:
             shutil.copyfile(os.path.join(md, "doc.bin"), path)
         subst = lambda x: x.replace("<FILE>", path).replace("<MISSING>", os.path.join(self.fs, "does-not-exist.in")).replace("<DIR>", self.fs)
         unesc = lambda x: x.replace("\\\\", "\0").replace("\\n", "\n").replace("\0", "\\")
@@ -165,6 +199,8 @@ class L2Runner:
         cmd = (wrapper or []) + [exe] + argv[1:]
         try:
             argv_b = [a.encode("utf-8", "surrogateescape") for a in cmd]
+            if feeder:
+                feeder.start()
             if meta.get("stdinfile", "0") == "1":
                 with open(os.path.join(md, "doc.bin"), "rb") as stdin:   # stdin is a regular file
                     p = subprocess.run(argv_b, stdin=stdin, stdout=subprocess.PIPE, stderr=subprocess.PIPE, env=env, timeout=timeout,
@@ -176,6 +212,14 @@ class L2Runner:
         except subprocess.TimeoutExpired:
             rc, out, err = None, b"", b""
         finally:
+            if feeder:
+                # a program that never opened the FIFO leaves the feeder blocked in open(): open it ourselves once
+                try:
+                    fdr = os.open(path, os.O_RDONLY | os.O_NONBLOCK)
+                    feeder.join(2.0)
+                    os.close(fdr)
+                except OSError:
+                    pass
             if have_file:
                 try:
                     os.unlink(path)
@@ -192,7 +236,7 @@ class L2Runner:
         l1out, l1err = norm(l1out), norm(l1err)
         return {"rc": rc, "out": out, "err": err, "l1_status": int(meta.get("status", "0")), "l1_sig": l1sig, "l1_out": l1out, "l1_err": l1err,
                 "comparable": comparable, "agree": (rc == int(meta.get("status", "0")) and norm(out) == l1out and norm(err) == l1err),
-                "faults": faults, "src": src}
+                "faults": faults, "src": src, "fifo": fifo}
 
 
 def has_spinfo_34(out):
@@ -214,6 +258,9 @@ def l2_sig(r):
     if r.get("l1_died"):
         return None
     rc = r["rc"]
+    if r.get("fifo") and r.get("comparable") and not r.get("agree") and rc in (0, 1):
+        # same bytes, once as a regular file (L1) and once through a FIFO in pieces (L2): different result
+        return "l2:delivery_dependent_output"
     if rc is None:
         return "l2:hang"
     if rc < 0:
